@@ -158,12 +158,12 @@ theorem runs_metadataStep {β : Type} (k : Option GeometryMetadata → DecM β)
     · cases hmdb
 
 /-- the composed theorem in `Runs` form -/
-theorem runs_decodeStreamWith (eb : DecOpts → DecM Geometry)
+theorem runs_decodeStreamWith (eb kd : DecOpts → DecM Geometry)
     (ch : Choices) (g : Geometry) (md : Option GeometryMetadata)
     (opts : EncOpts) (bs : Bytes) (encs : List AttEnc) (hok : GeomOK g opts)
     (hmd : ∀ m, md = some m → m.WF')
     (henc : encodeGeometryFull ch g md opts = some (bs, encs)) :
-    Runs (decodeStreamWith eb {}) 0 bs ⟨expectedGeometry g encs, md⟩
+    Runs (decodeStreamWith eb kd {}) 0 bs ⟨expectedGeometry g encs, md⟩
       (if g.isMesh then bsVersion 2 2 else bsVersion 2 3) := by
   unfold encodeGeometryFull at henc
   split at henc
@@ -240,7 +240,7 @@ theorem runs_decodeGeometry (ch : Choices) (g : Geometry) (md : Option GeometryM
     (henc : encodeGeometryFull ch g md opts = some (bs, encs)) :
     Runs (decodeGeometry {}) 0 bs ⟨expectedGeometry g encs, md⟩
       (if g.isMesh then bsVersion 2 2 else bsVersion 2 3) :=
-  runs_decodeStreamWith Eb.decodeEdgebreaker ch g md opts bs encs hok hmd henc
+  runs_decodeStreamWith Eb.decodeEdgebreaker Kd.decodeKdGeometry ch g md opts bs encs hok hmd henc
 
 /-! ### the decoded geometry does not depend on the choices -/
 
